@@ -32,7 +32,7 @@ def shards(tier):
 
 
 def seeds_for(name, tier, rng):
-    nums = C.corpus(name, limit=4 if tier == 'quick' else 25, rng=rng)
+    nums = C.rich_corpus(name, 4 if tier == 'quick' else 25, rng)
     out = [('valid', v) for v in nums]
     for v in nums[:2 if tier == 'quick' else 8]:
         n = len(v)
